@@ -93,6 +93,18 @@ class QuietTail:
         self.world = world
         self.orig = world.decisions.fate
         world.decisions.fate = self.fate
+        qf = world.scenario.get('quiet_from')
+        if qf is not None:
+            world.at(qf, self.stop_faults, tag='op')
+
+    def stop_faults(self):
+        """Faults stop here: pending injected errnos, send failures, partitions and stalls are cancelled."""
+        for n in self.world.nodes.values():
+            n.kernel.inject.clear()
+            n.sendto_fail.clear()
+            n.crash_countdown = None
+            n.stalled_until = min(n.stalled_until, self.world.now)
+        self.world.net.partitioned.clear()
 
     def fate(self, key, length):
         w = self.world
